@@ -23,10 +23,28 @@ func main() {
 	verif := flag.String("verif", envOr("VERIF_DIR", "/verif"), "verif directory (evidence, out, known findings)")
 	key := flag.String("key", "", "replay: only report this obligation key")
 	dump := flag.String("dumpfn", "", "debug: print the SSA of pkg:func (e.g. server:(*client).publishHandler)")
+	goos := flag.String("goos", "", "analyse the build configuration of this GOOS")
+	tests := flag.Bool("tests", false, "load test files too")
+	corpus := flag.String("corpus", "", "thorough: JSON result of the self-validation corpus and extra configurations to embed in the evidence")
+	noEvidence := flag.Bool("no-evidence", false, "do not write evidence / replay files into the verif directory (variant runs)")
 	flag.Parse()
 	seed, _ := strconv.ParseInt(os.Getenv("VERIF_SEED"), 10, 64)
 	start := time.Now()
-	prog, err := core.Load(core.Options{Dir: *repo})
+	lopt := core.Options{Dir: *repo, Tests: *tests}
+	if *goos != "" {
+		lopt.Env = append(lopt.Env, "GOOS="+*goos)
+	}
+	if *noEvidence {
+		tmp, terr := os.MkdirTemp("", "gmqttlint")
+		if terr == nil {
+			defer os.RemoveAll(tmp)
+			if b, rerr := os.ReadFile(*verif + "/known_findings.json"); rerr == nil {
+				_ = os.WriteFile(tmp+"/known_findings.json", b, 0o644)
+			}
+			*verif = tmp
+		}
+	}
+	prog, err := core.Load(lopt)
 	if err != nil {
 		fmt.Printf("CHECKER-ERROR load: %v\n", err)
 		os.Exit(2)
@@ -68,6 +86,9 @@ func main() {
 		}
 		ctx := core.NewCtx(prog, id, *tier, seed, *verif, known)
 		ctx.OnlyKey = *key
+		if *corpus != "" {
+			ctx.LoadCorpus(*corpus)
+		}
 		runRule(ctx, fn)
 		code := ctx.Finish(t0)
 		if code > exit && !(exit == 1) {
